@@ -138,6 +138,24 @@ def run_case(inp):
                 V("same-region", f"molecule {i}: binned subtomogram differs from the block sum of the {b}x larger "
                                  f"original subtomogram by {np.abs(small[i] - want).max():.4g}")
                 break
+        # binning twice is binning once by the product (images, poses and scale)
+        if b in (2, 3):
+            b2 = 2
+            try:
+                twice = lb.binning(b2, compute=inp["compute"])
+                once = ld.binning(b * b2, compute=inp["compute"])
+            except Exception as e:  # noqa: BLE001
+                V("no-error", f"binning({b}).binning({b2}) raised {type(e).__name__}: {str(e)[:120]}")
+                return viols
+            if abs(twice.scale - once.scale) > 1e-9 or np.abs(twice.molecules.pos - once.molecules.pos).max() > 1e-4 * scale:
+                V("composition", f"binning({b}).binning({b2}) and binning({b * b2}) give different scales / positions")
+            im2 = [twice.image] if inp["kind"] == "single" else [twice.images[t] for t in range(ntomo)]
+            im1 = [once.image] if inp["kind"] == "single" else [once.images[t] for t in range(ntomo)]
+            for x, y in zip(im2, im1):
+                x, y = np.asarray(x), np.asarray(y)
+                if x.shape != y.shape or not np.array_equal(x, y):
+                    V("composition", f"binning({b}).binning({b2}) image differs from binning({b * b2}) (shapes {x.shape}, {y.shape})")
+                    break
     return viols
 
 
